@@ -226,6 +226,9 @@ def plan(tier, seed):
     dv = diene_variants()
     for i in range(0, len(dv), 6):
         tasks.append({'space': 'two-double-bonds', 'dienes': dv[i:i + 6], 'full_orders': tier != 'quick'})
+    # the same molecule at every offset of the atom numbering (an unconnected alkane of 1..22 carbons listed first)
+    tasks.append({'space': 'shifted-numbering', 'shifts': list(range(1, 23)),
+                  'variants': [v for v in vs if v[0] in ('first', 'branch', 'H-first') and v[1] in ('after', 'branch')]})
     # seed slice: one seed-chosen form pair with every order of three fragments (cut at the double bond and on the right)
     lf = sorted(LEFT)[seed % len(LEFT)]
     rf = sorted(RIGHT)[(seed // 4) % len(RIGHT)]
@@ -269,6 +272,17 @@ def run_task(task, R):
                                    'cut': 'db' if ('db1' in cuts or 'db2' in cuts) else ('elsewhere' if cuts else 'none'),
                                    'order': order, 'kind': kind}
                             R.record(inp, evaluate(inp))
+        R.add_explorer(ex)
+        return
+    if task['space'] == 'shifted-numbering':
+        for lf, rf, rel, tl, tr in task['variants']:
+            for cut in ('none', 'db'):
+                for shift in task['shifts']:
+                    ex.states += 1
+                    ex.transitions += 1
+                    inp = {'family': 'db', 'lf': lf, 'rf': rf, 'rel': rel, 'tl': tl, 'tr': tr, 'cut': cut, 'kind': '$',
+                           'order': tuple(range(1 if cut == 'none' else 2)), 'deforder': tuple(range(1 if cut == 'none' else 2)), 'shift': shift}
+                    R.record(inp, evaluate(inp))
         R.add_explorer(ex)
         return
     for lf, rf, rel, tl, tr in task['variants']:
@@ -330,9 +344,12 @@ def build_db(inp):
     if inp.get('spectator'):
         k, where = inp['spectator']
         s = ('[#F%d].' % k + s) if where == 'first' else (s + '.[#F%d]' % k)
+    if inp.get('shift'):
+        # an unconnected alkane listed first shifts the keys of all following atoms by 3*shift+2
+        s = '[#S].' + s
     base = '{' + s + '}'
     deforder = inp.get('deforder') or tuple(range(n))
-    fragstr = '{' + ','.join('#F%d=%s' % (i, frs[i]) for i in deforder) + '}'
+    fragstr = '{' + ','.join(['#F%d=%s' % (i, frs[i]) for i in deforder] + (['#S=' + 'C' * inp['shift']] if inp.get('shift') else [])) + '}'
     return base + '.' + fragstr
 
 
